@@ -16,6 +16,7 @@ MBT  every terminal behaviour of the machines is one abstract input with the
 """
 import json
 import os
+import re
 import random
 
 import vlib
@@ -95,6 +96,18 @@ def run(tier):
         s["id"] = i + 1
     rng = random.Random(vlib.seed())
     extra = random_scenarios(rng, 400 if thorough else 60, len(scen))
+    # every bit of the verifier's trailing public-input index list (the last 8 bytes per
+    # index): reordered / huge / duplicate indexes must decode or be refused, never panic
+    nid = len(scen) + len(extra)
+    for j in range(16):
+        for b in range(8):
+            nid += 1
+            extra.append({"id": nid, "m": "verifier", "toks": [["byte.%d" % (1274 - 16 + j), str(1 << b)]],
+                          "pred": None, "why": "pi-index"})
+    for j, b in ((0, 0), (1, 7), (7, 7)):       # first index raised above the second as well as the second changed
+        nid += 1
+        extra.append({"id": nid, "m": "verifier", "pred": None, "why": "pi-index",
+                      "toks": [["byte.%d" % (1274 - 16 + j), str(1 << b)], ["byte.%d" % (1274 - 8), "1"]]})
     allsc = scen + extra
     byid = {s["id"]: s for s in allsc}
     d = vlib.workdir("C17")
@@ -171,6 +184,28 @@ def run(tier):
         ck.traces += nb
         ck.extra["size64_replay"] = {"cases": nb, "max_peak_over_len": bpk}
 
+    # 3c. the verifier's public-input index list reordered / duplicated / extended / bit-flipped
+    precs, paborted = harness_lines(["piindex"], timeout=1200)
+    if paborted:
+        g.add("Verifier::try_from_bytes aborted the process", {"site": "verifier", "class": "alloc-abort"}, {"abort": paborted})
+    pout = {}
+    for r in precs:
+        if r.get("m") != "pi-index":
+            continue
+        ck.case("verifier-pi-index:" + re.sub(r"\d+\.\d+", "k.b", r["id"]) if r["id"].startswith("flip") else "verifier-pi-index:" + r["id"])
+        ck.traces += 1
+        o = obs_class(r["res"])
+        pout[o] = pout.get(o, 0) + 1
+        for k in ("res", "smoke_verify", "reenc"):
+            v = str(r.get(k, ""))
+            if v.startswith("panic"):
+                g.add("a verifier encoding with an edited public-input index list panics in %s: %s"
+                      % ({"res": "Verifier::try_from_bytes", "smoke_verify": "verify", "reenc": "to_bytes"}[k], v[:120]),
+                      {"site": "verifier", "class": "pi-index-panic", "where": k}, {"input": r["id"], "observed": r})
+    if sum(pout.values()) < 100 or pout.get("ok", 0) == 0:
+        raise vlib.ToolError("piindex replay is vacuous: %s" % pout)
+    ck.extra["verifier_pi_index_outcomes"] = pout
+
     # 4. hostile compressed circuits (never panic, bounded allocation)
     hrecs, haborted = harness_lines(["hostile", "--tier", tier], timeout=2400)
     if haborted:
@@ -190,6 +225,9 @@ def run(tier):
         o = obs_class(r["res"])
         hout[o] = hout.get(o, 0) + 1
         ex = {"input": r["id"], "observed": r["res"], "peak": r["peak"], "len": r["len"]}
+        if r["id"] == "declared-plus-65536" and o == "ok":
+            g.add("a compressed description whose public-input vector declares 65536 more entries than it "
+                  "carries was accepted", {"site": "compile_with_compressed", "class": "declared-count-ignored"}, ex)
         if o == "panic":
             g.add("compile_with_compressed panicked: %s" % r["res"][:160],
                   {"site": "compile_with_compressed", "class": "panic", "msg": r["res"][:80]}, ex)
